@@ -46,6 +46,19 @@ class _Json:
         return getattr(self._real, name)
 
 
+def _ref_flatten(d, prefix=''):
+    """Reference flattening (independent of shell.flatten): nested mappings
+    become dotted keys, every other value -- null included -- is a leaf."""
+    out = {}
+    for k, v in d.items():
+        key = prefix + '.' + k if prefix else k
+        if isinstance(v, dict):
+            out.update(_ref_flatten(v, key))
+        else:
+            out[key] = v
+    return out
+
+
 def _policy(rng, with_default):
     names = ['svc:get', 'svc:create', 'svc:owner', 'helper', 'svc:delete',
              'admin_required']
@@ -59,6 +72,9 @@ def _policy(rng, with_default):
                                'role:member and project_id:%(project_id)s',
                                'is_admin:True or role:admin'])
         rules[n] = text
+    # attributes whose value is null in the target compare equal to None
+    rules['svc:nulls'] = 'None:%(target.user.id)s or None:%(project_id)s'
+    rules['svc:notnull'] = 'role:member and not None:%(project_id)s'
     if with_default:
         rules['default'] = rng.choice(['role:admin', '!', '@',
                                        'rule:admin_required'])
@@ -136,7 +152,7 @@ def run_checker(ctx, seed, index, with_default, targetfile):
             creds['system'] = {'all': True}
             creds['system_scope'] = 'all'
         if file_target is not None:
-            target = shell.flatten(file_target)
+            target = _ref_flatten(file_target)
         else:
             target = {'user_id': 'u1'}
             if has_project:
